@@ -2,7 +2,10 @@
 
 package layout
 
-import "github.com/tsawler/tabula/text"
+import (
+	"github.com/tsawler/tabula/model"
+	"github.com/tsawler/tabula/text"
+)
 
 // vFrags builds n fragments with distinct one-letter texts and symbolic geometry inside a 612x792 page.
 func vFrags(n int, symHeight bool) []text.TextFragment {
@@ -144,6 +147,36 @@ func H_C03_line_detection_order_independent() {
 	vAssert("same-line-count", len(a.Lines) == len(b.Lines))
 	for i := range a.Lines {
 		vAssert("same-line-text", a.Lines[i].Text == b.Lines[i].Text)
+	}
+	vReach("end")
+}
+
+// H_C03_tied_counts_are_order_independent: "most common value" decisions taken by ranging over a map - the body font
+// size behind heading detection, the left margin behind paragraph splitting - give the same answer for a tie whatever
+// order the map yields its keys in.
+//
+//symgo:harness prop=C03 kernel=F3-map-order-ties maporder=all noreplay=1 real=1
+//symgo:desc detectBodyFontSize over two one-line paragraphs of 24 pt and 12 pt (a tie of one line each) or three paragraphs with two tied sizes (enumerated); detectLeftMargin over two lines starting at x = 72 and x = 100 (a tie) or four lines tied two against two (enumerated); detectDominantAlignment over a two-way tie: each function is called twice, every map iteration independently takes each possible order: both calls return the same value
+func H_C03_tied_counts_are_order_independent() {
+	switch vAnyIntIn(0, 2) {
+	case 0:
+		ps := []Paragraph{{AverageFontSize: 24, Lines: make([]Line, 1)}, {AverageFontSize: 12, Lines: make([]Line, 1)}}
+		if vAnyIntIn(0, 1) == 1 {
+			ps = append(ps, Paragraph{AverageFontSize: 9, Lines: nil})
+		}
+		d := NewHeadingDetector()
+		vAssert("body-font-size-independent-of-map-order", d.detectBodyFontSize(ps) == d.detectBodyFontSize(ps))
+	case 1:
+		ls := []Line{{BBox: model.BBox{X: 72}}, {BBox: model.BBox{X: 100}}}
+		if vAnyIntIn(0, 1) == 1 {
+			ls = append(ls, Line{BBox: model.BBox{X: 72}}, Line{BBox: model.BBox{X: 100}})
+		}
+		d := NewParagraphDetector()
+		vAssert("left-margin-independent-of-map-order", d.detectLeftMargin(ls) == d.detectLeftMargin(ls))
+	default:
+		ls := []Line{{Alignment: AlignLeft}, {Alignment: AlignCenter}}
+		d := NewParagraphDetector()
+		vAssert("dominant-alignment-independent-of-map-order", d.detectDominantAlignment(ls) == d.detectDominantAlignment(ls))
 	}
 	vReach("end")
 }
